@@ -168,26 +168,22 @@ def _diff_files(a, b):
     return ""
 
 
-def package_rules(rep, inst, r, files):
-    """The written files form a complete importable package."""
+def package_facts(files):
+    """Facts about the files one run writes: {rel path: text}, parse errors, directories without __init__, imports that
+    do not resolve, modules their package's __init__ does not star-import."""
     mods = {}
     for path, content in files.items():
         rel = path[len("/out/"):] if path.startswith("/out/") else path
         rel = "/".join(c for c in rel.split("/") if c not in ("", "."))
         mods[rel] = content
-    # every file parses
-    trees = {}
+    trees, syntax = {}, []
     for rel, content in mods.items():
         try:
             trees[rel] = ast.parse(content)
         except SyntaxError as e:
-            rep.ob("C18.Q1 every-written-file-compiles", "%s file %s" % (inst, rel), False, "%s at line %s" % (e.msg, e.lineno),
-                   key="C18.Q1 | file does not compile")
-    rep.ob("C18.Q1 every-written-file-compiles", inst, len(trees) == len(mods), "%d of %d files parse" % (len(trees), len(mods)))
+            syntax.append((rel, "%s at line %s" % (e.msg, e.lineno)))
     dirs = sorted({rel.rsplit("/", 1)[0] if "/" in rel else "" for rel in mods})
     missing_init = [d for d in dirs if (d + "/__init__.py").lstrip("/") not in mods]
-    rep.ob("C18.Q2 every-directory-is-a-package", inst, not missing_init, "no __init__.py in: %s" % missing_init if missing_init else "%d packages" % len(dirs))
-    # __init__ star-imports every sibling module; every import in every module resolves
     unresolved = []
     not_exported = []
     for rel, tree in trees.items():
@@ -229,6 +225,20 @@ def package_rules(rep, inst, r, files):
             siblings = {m for m in mods if m != rel and (m.rsplit("/", 1)[0] if "/" in m else "") == d and not m.endswith("__init__.py")}
             for s in sorted(siblings - stars):
                 not_exported.append("%s does not star-import %s" % (rel, s))
+    return {"mods": mods, "trees": trees, "syntax": syntax, "dirs": dirs, "missing_init": missing_init,
+            "unresolved": unresolved, "not_exported": not_exported}
+
+
+def package_rules(rep, inst, r, files):
+    """The written files form a complete importable package."""
+    f = package_facts(files)
+    mods, trees = f["mods"], f["trees"]
+    for rel, why in f["syntax"]:
+        rep.ob("C18.Q1 every-written-file-compiles", "%s file %s" % (inst, rel), False, why, key="C18.Q1 | file does not compile")
+    rep.ob("C18.Q1 every-written-file-compiles", inst, len(trees) == len(mods), "%d of %d files parse" % (len(trees), len(mods)))
+    missing_init = f["missing_init"]
+    rep.ob("C18.Q2 every-directory-is-a-package", inst, not missing_init, "no __init__.py in: %s" % missing_init if missing_init else "%d packages" % len(f["dirs"]))
+    unresolved, not_exported = f["unresolved"], f["not_exported"]
     rep.ob("C18.Q3 every-import-resolves", inst, not unresolved, "; ".join(unresolved[:3]) or "all relative/absolute imports resolve to written or library modules")
     rep.ob("C18.Q4 package-init-exports-every-module", inst, not not_exported, "; ".join(not_exported[:3]) or "every type module is star-imported by its package")
 
@@ -334,12 +344,45 @@ def _order_insensitive(node, kind, fn):
     if kind in ("SetComp", "DictComp"):
         return True, "builds a set/dict: order-insensitive"
     if kind == "for":
-        # every statement of the body is X.add(...) / X[...] = ... on a set/dict, or a pure lookup
-        for st in node.body:
-            if isinstance(st, ast.Expr) and isinstance(st.value, ast.Call) and isinstance(st.value.func, ast.Attribute) and st.value.func.attr in ("add", "discard", "update"):
-                continue
-            return False, "loop over a set whose body is order-sensitive: %s" % ast.unparse(st)[:60]
-        return True, "loop body only adds to a set"
+        # every statement of the body is X.add(...) on a set, or X.append(...) on a local list that is sorted before
+        # anything else looks at it; `if` statements may select between such statements
+        appended = set()
+
+        def body_ok(stmts):
+            for st in stmts:
+                if isinstance(st, ast.If):
+                    r = body_ok(st.body) or body_ok(st.orelse)
+                    if r:
+                        return r
+                    continue
+                if isinstance(st, ast.Expr) and isinstance(st.value, ast.Call) and isinstance(st.value.func, ast.Attribute):
+                    f = st.value.func
+                    if f.attr in ("add", "discard", "update"):
+                        continue
+                    if f.attr == "append" and isinstance(f.value, ast.Name):
+                        appended.add(f.value.id)
+                        continue
+                if isinstance(st, (ast.Pass, ast.Continue)):
+                    continue
+                return "loop over a set whose body is order-sensitive: %s" % ast.unparse(st)[:60]
+            return None
+        bad = body_ok(node.body)
+        if bad:
+            return False, bad
+        for name in sorted(appended):
+            # the first statement after the loop that mentions the list must sort it in place (or rebind it to sorted(...))
+            after = [st for st in ast.walk(fn) if isinstance(st, ast.stmt) and st.lineno > (node.end_lineno or node.lineno)
+                     and any(isinstance(x, ast.Name) and x.id == name for x in ast.walk(st))]
+            after.sort(key=lambda st: (st.lineno, st.col_offset))
+            first = after[0] if after else None
+            sorts = (isinstance(first, ast.Expr) and isinstance(first.value, ast.Call) and isinstance(first.value.func, ast.Attribute)
+                     and first.value.func.attr == "sort" and isinstance(first.value.func.value, ast.Name) and first.value.func.value.id == name) \
+                or (isinstance(first, ast.Assign) and isinstance(first.value, ast.Call) and isinstance(first.value.func, ast.Name)
+                    and first.value.func.id == "sorted" and first.value.args and isinstance(first.value.args[0], ast.Name) and first.value.args[0].id == name
+                    and len(first.targets) == 1 and isinstance(first.targets[0], ast.Name) and first.targets[0].id == name)
+            if not sorts:
+                return False, "elements of a set are appended to %s in iteration order and %s is used without being sorted first" % (name, name)
+        return True, "loop body only adds to sets" + (" / appends to %s, sorted before use" % ", ".join(sorted(appended)) if appended else "")
     # list comprehension / generator over a set: fine only as the direct argument of sorted()/set()/frozenset()/any()/all()/sum()/len()/min()/max()
     for p in ast.walk(fn):
         if isinstance(p, ast.Call) and isinstance(p.func, ast.Name) and p.func.id in ("sorted", "set", "frozenset", "any", "all", "sum", "len", "min", "max") \
